@@ -348,10 +348,57 @@ def kahn_counters(rep, S, f, q, wl, fl, state, out_, work):
     return kind
 
 
-def cycle_rules(rep, prog, f, leftover):
+def erased_self_loops(prog, f, S):
+    """Even when the loop as a whole is not read, three facts about it can be: (1) a store in the work-list loop clears the whole row of the node just taken
+    from the work list (`A[i, :] = 0`, `A[i] = 0`) - its diagonal entry included; (2) readiness of a node is decided by pa(., <working matrix>);
+    (3) pa() does not count a self-loop (its pointwise table is False where both A[j, i] and A[i, j] are non-zero, which is the diagonal).
+    Then a node with a self-loop and other parents becomes ready once those are emitted, is emitted, and its self-loop is erased with its row: nothing is
+    left for any test after the loop.  -> the offending store, or None"""
+    q = f.qname
+    whiles = [(k, v) for k, v in S.loopinfo.items() if v["func"] == q and v["test"] is not None]
+    if len(whiles) != 1:
+        return None
+    lw, w = whiles[0]
+    hit = None
+    for st in S.select("store", root=q):
+        if lw not in st.loops or not is_const(st.value, 0) or st.base[0] != "mu" or st.base[1] != lw:
+            continue
+        row = st.idx[1][0] if st.idx[0] == "tuple" and len(st.idx[1]) == 2 and st.idx[1][1] == FULL_ else (st.idx if st.idx[0] != "tuple" else None)
+        if row is not None and row[0] == "method" and row[2] in ("pop", "popleft") and row[1][0] == "mu" and row[1][1] == lw:
+            hit = st
+    if hit is None:
+        return None
+    terms = list(w["next"].values()) + [c for x in S.facts if x.root == q and lw in getattr(x, "loops", ()) for c, _ in x.path]
+    by_pa = any(isinstance(y, tuple) and len(y) == 4 and y[0] == "call" and y[1] == U + "pa" and any(z == hit.base or (isinstance(z, tuple) and z[:1] == ("store",) and z[1] == hit.base) for z in walk(y))
+                for t_ in terms for y in walk(t_))
+    if not by_pa:
+        return None
+    try:
+        from .C15 import eval_relation, strip_list
+        fpa = need(prog, U + "pa")
+        Sp = Sym(prog)
+        sp, _ = run_function(Sp, fpa)
+        rows = eval_relation(strip_list(T(sp.ret)), ("param", "i"), "A")
+    except Inconclusive:
+        return None
+    from .. import signs as _sg
+    both = [v for k_, v in rows.items() if k_[0] == k_[1] and k_[0] != _sg.Z]
+    return hit if both and not any(both) else None
+
+
+def cycle_rules(rep, prog, f, leftover, S=None):
     """every kind of cycle is rejected by the pre-check or by the leftover check - whatever the signs"""
     fpre, cov = PW.precheck_coverage(prog)
     w = fwhere(f, cov["node"]) if cov["node"] is not None else fwhere(f)
+    if leftover == "unread" and S is not None and not cov["diag"]:
+        st_ = erased_self_loops(prog, f, S)
+        if st_ is not None:
+            rep.bad("CYCLES.self-loop", fwhere(f, st_.node), "a self-loop on a node with other parents is accepted: the pre-check skips the diagonal (%s), pa() does not count a self-loop, so the "
+                    "node becomes ready after its other parents, and this store clears its whole row - the self-loop with it - before any test after the loop" % cov["why"][:100])
+            for nm_, covered in (("CYCLES.two-cycle", cov["pairs"]),):
+                (rep.ok if covered else rep.unk)(nm_, w, "rejected by the pre-check" if covered else "not covered by the pre-check, and the loop after it is not read")
+            rep.unk("CYCLES.longer", w, "whether longer cycles are caught depends on the loop, which is not read")
+            return
     if leftover == "unread":
         # the loop is written in a form the Kahn rules do not read: what the leftover test catches is not known either
         if cov["false_rejections"]:
@@ -464,7 +511,7 @@ def acyclicity_core(rep, prog):
                 rep.unk("TOPO.fast-path", fwhere(f, r.node), "an ordering is returned before the work-list loop under `%s`: whether this condition admits a graph with a cycle is not decided" %
                         "; ".join(pred_fmt(c) for c in conds)[:120])
     leftover = kahn_rules(rep, prog, f, S)
-    cycle_rules(rep, prog, f, leftover)
+    cycle_rules(rep, prog, f, leftover, S)
     # is_dag turns *every* ValueError of topological_ordering into "not a DAG": a rejection that looks at the element type of the
     # matrix (dtype / kind / issubdtype) rather than at its edges makes is_dag answer False - and the constructors raise - for
     # acyclic matrices of the types it leaves out (unsigned integers, ...).  Shape checks concern non-matrices and are fine.
